@@ -37,14 +37,14 @@ def final_assertions(ids, which, objs):
         x, y, z = (W.create(ids, W.Org, name=i) for i in (1, 2, 3))
         x.sub_org_of.append(y)
         y.sub_org_of.append(z)
-        return [x, y, z], {(0, "sub_org_of", 1), (1, "sub_org_of", 2), (0, "sub_org_of", 2)}, lambda: [index_of([x, y, z], o) for o in x.sub_org_of] == [1, 2] and [index_of([x, y, z], o) for o in y.sub_org_of] == [2]
+        return [x, y, z], {(0, "sub_org_of", 1), (1, "sub_org_of", 2), (0, "sub_org_of", 2), (0, "related_to", 1), (1, "related_to", 2), (0, "related_to", 2)}, lambda: [index_of([x, y, z], o) for o in x.sub_org_of] == [1, 2] and [index_of([x, y, z], o) for o in y.sub_org_of] == [2]
     if which == "transitive-chain-with-sweep":
         # the same chain, with a query (which sweeps dead instances) between the two assertions
         x, y, z = (W.create(ids, W.Org, name=i) for i in (1, 2, 3))
         x.sub_org_of.append(y)
         list(an(entity(let(W.Human, None))).evaluate())
         y.sub_org_of.append(z)
-        return [x, y, z], {(0, "sub_org_of", 1), (1, "sub_org_of", 2), (0, "sub_org_of", 2)}, lambda: [index_of([x, y, z], o) for o in x.sub_org_of] == [1, 2] and [index_of([x, y, z], o) for o in y.sub_org_of] == [2]
+        return [x, y, z], {(0, "sub_org_of", 1), (1, "sub_org_of", 2), (0, "sub_org_of", 2), (0, "related_to", 1), (1, "related_to", 2), (0, "related_to", 2)}, lambda: [index_of([x, y, z], o) for o in x.sub_org_of] == [1, 2] and [index_of([x, y, z], o) for o in y.sub_org_of] == [2]
     if which == "member-add":
         o = W.create(ids, W.Org, name=1)
         p = W.create(ids, W.Human, name=2)
@@ -66,7 +66,7 @@ def final_assertions(ids, which, objs):
         y, z = (W.create(ids, W.Org, name=i) for i in (2, 3))
         y.sub_org_of.append(z)
         x.sub_org_of.append(y)
-        return [x, y, z], {(0, "sub_org_of", 1), (1, "sub_org_of", 2), (0, "sub_org_of", 2)}, lambda: all(any(o is t for o in x.sub_org_of) for t in (y, z)) and [index_of([x, y, z], o) for o in y.sub_org_of] == [2]
+        return [x, y, z], {(0, "sub_org_of", 1), (1, "sub_org_of", 2), (0, "sub_org_of", 2), (0, "related_to", 1), (1, "related_to", 2), (0, "related_to", 2)}, lambda: all(any(o is t for o in x.sub_org_of) for t in (y, z)) and [index_of([x, y, z], o) for o in y.sub_org_of] == [2]
     if which == "new-boss-heads-new-org":
         # a role (Boss) of a new human is related to a new org: the inference reaches the role taker
         p_ = W.create(ids, W.Human, name=1)
